@@ -7,13 +7,12 @@
   are promoted to long form by appending `extra` bytes and shifting the body (`copy`), per-builder sticky
   error flags that propagate upwards at flush, fixed-capacity builders, panics as explicit outcomes.
 
-  Deliberate deviations from the code as it is today (each is a defect of the real code w.r.t. the
-  property; the check reports them as KNOWN-FINDING, see known_findings.txt):
-   * a fixed-size builder that cannot even hold the length prefix reports an error here; the real code
-     goes on with a child whose `offset+pendingLenLen` lies beyond the buffer and panics "internal error";
-   * a fixed-size builder that cannot hold the extra ASN.1 long-form length bytes reports an error here;
-     the real code ignores the failed `child.add`, shifts a truncated body and returns it without error;
-   * `read 0` on the empty string succeeds here; the real `String(nil).read(0)` reports failure.
+  Three places follow the code as FIXED in /repo (commits 4ba3893, 23124a6; found by this model):
+   * a fixed-size builder that cannot hold the length prefix reports an error and does not run the
+     continuation (before: a child with `offset+pendingLenLen` beyond the buffer → "internal error" panic);
+   * a fixed-size builder that cannot hold the extra ASN.1 long-form length bytes reports an error
+     (before: the failed `child.add` was ignored, a truncated body shifted and returned without error);
+   * `read 0` on the empty string succeeds, also for `String(nil)`.
 -/
 import XC.Basic
 import XC.Model.C23
@@ -97,7 +96,7 @@ def flush (cap : Option Nat) (isASN1 : Bool) (b c : B) : Out B :=
       .ok { b with res := res1 }
     else
       let c1 := add cap { c with res := res1 } (zeros extra)
-      if c1.err then .ok { b with err := true } else   -- (deviation 2, see header)
+      if c1.err then .ok { b with err := true } else   -- `if child.err != nil { b.err = child.err; return }`
       let res2 := copyWithin c1.res (c.off + c.pll + extra) (c.off + c.pll)
       let (res3, l) := patchLen extra res2 (c.off + 1) length
       if l != 0 then .ok { b with err := true } else .ok { b with res := res3 }
@@ -132,7 +131,7 @@ def runP (cap : Option Nat) (top : Bool) : Prog → B → Out B
   | .lp k body, b =>
     if b.err then .ok b else
     let b1 := add cap b (zeros k)
-    if b1.err then .ok b1 else   -- (deviation 1, see header)
+    if b1.err then .ok b1 else   -- `if b.err != nil { return }` after reserving the prefix
     finish cap top false b1 (runL cap false body ⟨b1.res, false, b.res.length, k⟩)
   | .asn1 tag body, b =>
     if b.err then .ok b else
@@ -140,7 +139,7 @@ def runP (cap : Option Nat) (top : Bool) : Prog → B → Out B
     let b0 := add cap b [tag]
     if b0.err then .ok b0 else
     let b1 := add cap b0 (zeros 1)
-    if b1.err then .ok b1 else   -- (deviation 1)
+    if b1.err then .ok b1 else
     finish cap top true b1 (runL cap false body ⟨b1.res, false, b0.res.length, 1⟩)
 def runL (cap : Option Nat) (top : Bool) : List Prog → B → Out B
   | [], b => .ok b
